@@ -4,11 +4,12 @@ CONSTANTS
   Maxes = {1, 2}
   Paths = {"single", "multi", "resolver"}
   KindsOf <- MCKindsSmall
+  OthersOf <- MCKindsSmall
   KindIndex <- MCKindIndex
   Sorted = TRUE
   KnownDefects = {"C43-check-then-start"}
   Depth = 0
   Log <- LogLast
 VIEW cvars
-INVARIANTS TypeOK Inv_C43_FreshBound Inv_C43_Balanced Inv_C43_Quiescent Inv_Counter
+INVARIANTS TypeOK Inv_C43_WorkCovered Inv_C43_FreshBound Inv_C43_Balanced Inv_C43_Quiescent Inv_Counter
 CHECK_DEADLOCK FALSE
